@@ -277,7 +277,7 @@ def run_case(i, rng, rec, tier, state):
         relkw = {"d": F0["d"], "dim": 3}
     elif mode == 2:
         for _ in range(40):
-            c = gen.polygon_case(rng)
+            c = gen.polygon_case(rng, unit_frac=0.1)
             if len(c["V"]) <= 12:
                 break
         V = c["V"][:12] if len(c["V"]) > 12 else c["V"]
